@@ -13,6 +13,9 @@ use std::rc::Rc;
 use std::sync::Arc;
 use std::time::Instant;
 
+#[cfg(quiver_verif)]
+pub mod verif;
+
 /// Bundled program update data for incremental compilation.
 /// Contains full tuple type information for merging with Environment's Program state.
 #[derive(Debug, Clone, Serialize, Deserialize)]
@@ -1088,6 +1091,8 @@ impl<E: Effect> Executor<E> {
     /// Execute up to max_units instruction units for a single process.
     /// Returns (did_work, optional_action) where did_work indicates if any instructions were executed.
     pub fn step(&mut self, max_units: usize, current_time_ms: u64) -> (bool, Option<Action<E>>) {
+        #[cfg(quiver_verif)]
+        let max_units = verif::quantum_override(max_units);
         // Reclaim slots that settled at count 0 since the last step. Doing it here (a quiescent
         // point — any Action returned by the previous step has been handled by the Environment,
         // and no Rust-local Value handles are live) is what makes deferred reclamation safe.
@@ -1114,6 +1119,8 @@ impl<E: Effect> Executor<E> {
             let Some(instruction) = Self::current_instruction(&proc, &self.functions) else {
                 break; // Process finished or no more instructions in current frame
             };
+            #[cfg(quiver_verif)]
+            verif::trace(current_pid, &proc, instruction);
 
             let step_result = if Self::is_cold(instruction) {
                 // Rare control/concurrency ops use the existing handlers, which expect the
